@@ -87,6 +87,20 @@ CHECKS["C18"] = dict(
     note=TRUST + "Not decided: digit-level precision of particular values, negative zero, overwriting an HDF5 group that "
          "holds a different set of titles, h5py/numpy exactness (assumed).")
 
+CHECKS["C16"] = dict(
+    category="proof", design_ref="DESIGN.md section 3 / C16",
+    technique="exhaustive exact-integer group closure of the generator strings parsed from the ast; polynomial identity "
+              "M.G.M^T = G for the generic conforming metric; ast rules on the orbit enumeration",
+    text="Proof (finite, exhaustive): the ten named groups are re-generated in exact integer arithmetic from the generator "
+         "strings in sym_u.py, modelling m_from_string's row convention read from its source, and each is shown closed, "
+         "with identity and inverses, all determinants +1, of the order of the proper point group, and metric preserving "
+         "for the generic conforming cell under the left application find_uniq_u uses (this is what exposed the trigonal "
+         "generator). Structural: the reduction enumerates the whole orbit of its input with a strict maximum and falls "
+         "back to the input, so with a closed group it returns the same maximiser for every orbit member; the registry "
+         "and the callers are consistent.",
+    note=TRUST + "Assumes group.makegroup computes the closure (float allclose on integer matrices is exact). Not decided: "
+         "ties of the trace / hkl score, numerical consequences for indexing.")
+
 NOT_YET = {}
 
 NOT_APPLICABLE = {
